@@ -25,13 +25,23 @@ type vFile struct {
 	failAt    int
 	failShort int
 	failed    int
+	// read fault injection: the failReadAt-th ReadAt call (0-based) returns an error and no data
+	reads      int
+	failReadAt int
+	readFailed int
 }
 
 var errVFault = errors.New("vFile: injected write fault")
 
-func newVFile() *vFile { return &vFile{failAt: -1} }
+func newVFile() *vFile { return &vFile{failAt: -1, failReadAt: -1} }
 
 func (f *vFile) ReadAt(p []byte, off int64) (int, error) {
+	call := f.reads
+	f.reads++
+	if call == f.failReadAt {
+		f.readFailed++
+		return 0, errVFault
+	}
 	if off < 0 {
 		return 0, errors.New("vFile: negative offset")
 	}
